@@ -15,10 +15,11 @@ package main
 import (
 	"bytes"
 	"crypto/sha256"
-	"encoding/hex"
 	"encoding/binary"
+	"encoding/hex"
 	"encoding/json"
 	"fmt"
+	"go/build"
 	"os"
 	"os/exec"
 	"path/filepath"
@@ -74,9 +75,20 @@ type entry struct {
 	// (quick, thorough) and report data races between two accesses that are
 	// both in the instrumented source. Supplementary (sampling), SCHED checks only.
 	RacePass []int `json:"race_pass_s,omitempty"`
+	// RewriteGlobals: run vrewrite with -globals (scheduling points at
+	// accesses to written package-level variables, zzResetGlobals).
+	RewriteGlobals bool `json:"rewrite_globals,omitempty"`
+	// Sub lists further parts of the same check that need their own test
+	// binary (e.g. a SCHED part in a virtual package next to an input
+	// enumeration in the real package). Results are merged into one
+	// evidence file; a replay file is routed by the prefix of its "part".
+	Sub []entry `json:"sub,omitempty"`
+	// Name and PartPrefix identify a sub-entry.
+	Name       string `json:"name,omitempty"`
+	PartPrefix string `json:"part_prefix,omitempty"`
 	// MinOutcomes is the least number of distinct observed outcomes for the
 	// exploration to count as non-vacuous (default 2).
-	MinOutcomes int `json:"min_outcomes,omitempty"`
+	MinOutcomes int    `json:"min_outcomes,omitempty"`
 	Engine      string `json:"engine,omitempty"`
 }
 
@@ -184,14 +196,37 @@ func buildOverlay(e entry, wd string) (string, string) {
 		os.RemoveAll(outDir)
 		os.MkdirAll(outDir, 0o755)
 		args := []string{"-out", outDir, "-pkg", filepath.Base(e.Pkg)}
+		if e.RewriteGlobals {
+			args = append([]string{"-globals"}, args...)
+		}
 		for _, f := range e.Rewrite {
+			if strings.ContainsAny(f, "*?") {
+				ms, _ := filepath.Glob(filepath.Join(repoDir, f))
+				sort.Strings(ms)
+				for _, m := range ms {
+					if strings.HasSuffix(m, "_test.go") {
+						continue
+					}
+					if ok, err := build.Default.MatchFile(filepath.Dir(m), filepath.Base(m)); err != nil || !ok {
+						continue // excluded by build constraints (e.g. //go:build ignore)
+					}
+					args = append(args, m)
+				}
+				continue
+			}
 			args = append(args, filepath.Join(repoDir, f))
 		}
 		cmd := exec.Command(filepath.Join(verifDir, "bin", "vrewrite"), args...)
-		cmd.Stderr = os.Stderr
-		cmd.Stdout = os.Stderr
+		var rwOut bytes.Buffer
+		cmd.Stderr = &rwOut
+		cmd.Stdout = &rwOut
+		defer func() {
+			if s := strings.TrimSpace(rwOut.String()); s != "" {
+				os.WriteFile(filepath.Join(wd, "vrewrite.log"), []byte(s+"\n"), 0o644)
+			}
+		}()
 		if err := cmd.Run(); err != nil {
-			die(2, "vrewrite failed: %v", err)
+			die(2, "vrewrite failed: %v\n%s", err, rwOut.String())
 		}
 		gen, _ := filepath.Glob(filepath.Join(outDir, "*.go"))
 		for _, g := range gen {
@@ -333,6 +368,8 @@ func loadFindings() []finding {
 }
 
 type shardRun struct {
+	e       entry
+	bin, wd string
 	idx     int
 	res     *shardResult
 	died    bool
@@ -408,7 +445,7 @@ func runShards(e entry, bin, wd, tier string, seed int64, replay string) []shard
 			cmd.Stderr = &buf
 			done := make(chan error, 1)
 			if err := cmd.Start(); err != nil {
-				runs[i] = shardRun{idx: i, died: true, output: err.Error()}
+				runs[i] = shardRun{e: e, bin: bin, wd: wd, idx: i, died: true, output: err.Error()}
 				return
 			}
 			go func() { done <- cmd.Wait() }()
@@ -421,7 +458,7 @@ func runShards(e entry, bin, wd, tier string, seed int64, replay string) []shard
 				err = <-done
 				timedOut = true
 			}
-			r := shardRun{idx: i, output: buf.String(), timeout: timedOut}
+			r := shardRun{e: e, bin: bin, wd: wd, idx: i, output: buf.String(), timeout: timedOut}
 			b, rerr := os.ReadFile(out)
 			if rerr == nil {
 				var sr shardResult
@@ -458,6 +495,29 @@ func runCheck(e entry, tier string, replay string) int {
 		evPath = filepath.Join(wd, "evidence.json")
 		replayDir = filepath.Join(wd, "replay")
 	}
+	main := e
+	var subs []entry
+	for _, sb := range e.Sub {
+		sb.ID = e.ID
+		if sb.Level == "" {
+			sb.Level = e.Level
+		}
+		subs = append(subs, sb)
+	}
+	subWD := func(sb entry) string { return workDir(e.ID + "." + sb.Name) }
+	if replay != "" {
+		var rf struct {
+			Part string `json:"part"`
+		}
+		if b, err := os.ReadFile(replay); err == nil && json.Unmarshal(b, &rf) == nil {
+			for _, sb := range subs {
+				if sb.PartPrefix != "" && strings.HasPrefix(rf.Part, sb.PartPrefix) {
+					e, wd = sb, subWD(sb)
+					subs = nil
+				}
+			}
+		}
+	}
 	bin, err := buildTestBinary(e, wd)
 	if err != nil {
 		fmt.Fprintf(os.Stderr, "HARNESS-ERROR property=%s harness does not build against the current tree:\n%v\n", e.ID, err)
@@ -485,6 +545,26 @@ func runCheck(e entry, tier string, replay string) int {
 		}
 	}
 	runs := runShards(e, bin, wd, tier, seed, replay)
+	type builtPart struct {
+		e  entry
+		wd string
+	}
+	parts := []builtPart{{e, wd}}
+	if replay == "" {
+		for _, sb := range subs {
+			t1 := time.Now()
+			swd := subWD(sb)
+			sbin, err := buildTestBinary(sb, swd)
+			if err != nil {
+				fmt.Fprintf(os.Stderr, "HARNESS-ERROR property=%s part %s does not build against the current tree:\n%v\n", e.ID, sb.Name, err)
+				return 2
+			}
+			buildS += time.Since(t1).Seconds()
+			runs = append(runs, runShards(sb, sbin, swd, tier, seed, "")...)
+			parts = append(parts, builtPart{sb, swd})
+		}
+	}
+	e = main
 
 	if replay != "" {
 		r := runs[0]
@@ -518,7 +598,7 @@ func runCheck(e entry, tier string, replay string) int {
 	for _, r := range runs {
 		if r.died {
 			if (e.CrashIsViolation || strings.Contains(r.output, "vx: watchdog")) && len(r.crumb) > 0 && !r.timeout {
-				if v, ok := confirmCrash(e, bin, wd, tier, seed, r); ok {
+				if v, ok := confirmCrash(r.e, r.bin, r.wd, tier, seed, r); ok {
 					crashVios = append(crashVios, v)
 					m.Exhaustive = false
 					m.Caps = append(m.Caps, fmt.Sprintf("shard %d died on a crashing case; the rest of that shard was not explored", r.idx))
@@ -604,12 +684,18 @@ func runCheck(e entry, tier string, replay string) int {
 	if broken {
 		return 2
 	}
-	if len(e.RacePass) == 2 && racePassBudget(e, tier) > 0 {
-		info, rv := racePass(e, wd, tier, seed)
-		m.Notes["race_pass"] = info
-		m.Violations = append(m.Violations, rv...)
-		if ok, _ := info["completed"].(bool); !ok {
-			m.Caps = append(m.Caps, "supplementary free-running -race pass did not complete: "+fmt.Sprint(info["error"]))
+	for _, bp := range parts {
+		if len(bp.e.RacePass) == 2 && racePassBudget(bp.e, tier) > 0 {
+			info, rv := racePass(bp.e, bp.wd, tier, seed)
+			key := "race_pass"
+			if bp.e.Name != "" {
+				key += "/" + bp.e.Name
+			}
+			m.Notes[key] = info
+			m.Violations = append(m.Violations, rv...)
+			if ok, _ := info["completed"].(bool); !ok {
+				m.Caps = append(m.Caps, "supplementary free-running -race pass did not complete: "+fmt.Sprint(info["error"]))
+			}
 		}
 	}
 
